@@ -236,8 +236,7 @@ func fmtErrorSourceLineWithParser(p *syntax.Parser, cursorIdx int, withCursorMar
 	}
 	// find prev until meeting first CR/LF
 	for startIdx > 0 {
-		if isLineBreak(startIdx) {
-			startIdx += 1
+		if isLineBreak(startIdx - 1) {
 			// skip indent chars
 			for startIdx < sourceLen && (source[startIdx] == syntax.RuneSP || source[startIdx] == syntax.RuneTAB) {
 				startIdx += 1
@@ -245,6 +244,10 @@ func fmtErrorSourceLineWithParser(p *syntax.Parser, cursorIdx int, withCursorMar
 			break
 		}
 		startIdx -= 1
+	}
+	// the text begins with line break(s) and the cursor is on them: an empty first line
+	if startIdx == 0 && isLineBreak(0) {
+		endIdx = 0
 	}
 	// find next until meeting first CR/LF (or the end of source)
 	for endIdx < sourceLen {
